@@ -344,3 +344,35 @@ contract("Cluster._update_job_status", file=F,
          modifies=["JobStatus.hpc_job_ids", "JobStatus.batch_index", "Job.state", "Job.blocked_by", "ClusterConfig.submitted_jobs",
                    "ClusterConfig.completed_jobs", "ClusterConfig.version", "JobStatus.version", "self._config_hash", "self._job_status_hash",
                    "ghost.files", "ghost.vfiles", "ghost.file_writes"])
+
+_uj = contract.__globals__["CONTRACTS"]["Cluster._update_job_status"]
+contract("Cluster.update_job_status", file=F,
+         params=list(_uj.params), defs=UJ_DEFS,
+         requires=["not ghost.cluster_lock"] + [r for r in UJ_PRE if r != "ghost.cluster_lock"],
+         ensures=UJ_POST + ["not ghost.cluster_lock"],
+         raises=dict({k: dict(v, ensures=list(v.get("ensures", [])) + ["not ghost.cluster_lock", "ghost.lock_marker_left"]) for k, v in _uj.raises.items()},
+                     Timeout={"ensures": ["ghost.files == old(ghost.files) and ghost.vfiles == old(ghost.vfiles) and ghost.file_writes == old(ghost.file_writes)",
+                                          "not ghost.cluster_lock"]}),
+         modifies=list(_uj.modifies) + ["ghost.cluster_lock", "ghost.lock_marker_left"])
+
+contract("Cluster._are_all_jobs_complete", file=F,
+         params=[("self", "Ref[Cluster]")], returns="bool",
+         requires=["not isnone(self._job_status)", "J(self)", "fold_hint('n_done', JOBS(self))"],
+         ensures=["result == forall(i, range(len(JOBS(self))), JOBS(self)[i].state == JobState.DONE)"],
+         loops={1: {"invariant": ["forall(i, range(_k1), _it1[i].state == JobState.DONE)"]}})
+contract("Cluster.are_all_jobs_complete", file=F,
+         params=[("self", "Ref[Cluster]")], returns="bool",
+         requires=["not ghost.cluster_lock", "not isnone(self._job_status)", "J(self)"],
+         ensures=["result == forall(i, range(len(JOBS(self))), JOBS(self)[i].state == JobState.DONE)", "not ghost.cluster_lock"],
+         raises={"Timeout": {"ensures": ["not ghost.cluster_lock"]}},
+         modifies=["ghost.cluster_lock", "ghost.lock_marker_left"])
+
+contract("Cluster._complete_hpc_job_id", file=F,
+         params=[("self", "Ref[Cluster]"), ("job_id", "Name"), ("serialize", "bool", "True")],
+         requires=["ghost.cluster_lock", "Inv_handle(self)", "self.g_promoted", "not isnone(self._job_status)",
+                   "job_id in nameset_ids(self)" if False else "exists(i, range(len(val(self._job_status).hpc_job_ids)), val(self._job_status).hpc_job_ids[i] == job_id)"],
+         ensures=["len(val(self._job_status).hpc_job_ids) == old(len(val(self._job_status).hpc_job_ids)) - 1",
+                  "implies(serialize, js_mirrored(self))"],
+         raises={"JobStatusVersionMismatch": {"when": ["serialize and val(self._job_status).version != disk_jv(self)"], "iff": True,
+                                              "ensures": ["ghost.files == old(ghost.files) and ghost.vfiles == old(ghost.vfiles)"], "frame": False}},
+         modifies=["JobStatus.hpc_job_ids", "JobStatus.version", "self._job_status_hash", "ghost.files", "ghost.vfiles", "ghost.file_writes"])
